@@ -317,6 +317,15 @@ func genLoopDL(r *Rng, idx int, tier string, step func(op string) string) {
 			break
 		}
 		p := cand[r.Intn(len(cand))]
+		if r.Chance(6) {
+			// the peer asks for data (interested or not, choked or not, for a piece we may not have yet)
+			if r.Chance(40) {
+				absorb(peers, step(fmt.Sprintf("msg p=%d t=interested", p.k)))
+			}
+			i := r.Intn(l.numPieces() + 1)
+			absorb(peers, step(fmt.Sprintf("msg p=%d t=request i=%d b=%d l=%d", p.k, i, r.Pick(0, 0, 1, l.pl/2), r.Pick(1, 16, l.pl, 16384))))
+			continue
+		}
 		if !p.unchoked && r.Chance(60) {
 			absorb(peers, step(fmt.Sprintf("msg p=%d t=unchoke", p.k)))
 			p.unchoked = true
@@ -1019,6 +1028,10 @@ func genPrivate(r *Rng, idx int, tier string, step func(op string) string) {
 			}
 			if r.Chance(85) {
 				do(fmt.Sprintf("msg p=%d t=exths m=%s size=%d", p.k, exts, isize))
+				if r.Chance(25) {
+					// a second extension handshake that (now) lists ut_pex
+					do(fmt.Sprintf("msg p=%d t=exths m=ut_metadata:3+ut_pex:%d size=%d", p.k, r.Pick(2, 4), isize))
+				}
 			}
 		case roll < 45:
 			p := live[r.Intn(len(live))]
